@@ -147,11 +147,13 @@ class World:
         elif op == "Begin":
             sc = b.get_scenario(h["m"], h["sc"])
             st = self.settings(h)
-            sibs = sorted(h.get("sibs") or [])
-            b.begin_session(scenarios=[h["sc"]] + sibs, scenario_managers=[h["m"]], equations=EQS,
+            sibs = sorted(tuple(p) for p in (h.get("sibs") or []))
+            mgrs = [h["m"]] + sorted({p[0] for p in sibs} - {h["m"]})
+            names_ = [h["sc"]] + sorted({p[1] for p in sibs} - {h["sc"]})
+            b.begin_session(scenarios=names_, scenario_managers=mgrs, equations=EQS,
                             settings=({h["m"]: {h["sc"]: st}} if st else {}), dt=None)
             self.steps = (h["m"], h["sc"], [])
-            self.sib_steps = {y: [] for y in sibs}
+            self.sib_steps = {p: [] for p in sibs}
         elif op == "Step":
             m, sc, log = self.steps
             st = self.settings(h)
@@ -171,9 +173,9 @@ class World:
             if bad:
                 return ("run_step %d of %s/%s (settings so far %s)" % (len(log), m, sc, log), exp, bad)
             # the other scenarios of the session: each is stepped with its own settings, whatever sc was sent
-            sib_eff = h.get("sibs") if isinstance(h.get("sibs"), dict) else {}
-            for y, eff in sib_eff.items():
-                ylog = self.sib_steps[y]
+            for rec in (h.get("sibs") or []):
+                m2, y, eff = rec["m"], rec["sc"], rec["eff"]
+                ylog = self.sib_steps[(m2, y)]
                 ylog.append((eff["k"], eff["tab"]))
                 ys, yexp = 0.0, None
                 for i, (k, tab) in enumerate(ylog):
@@ -181,11 +183,11 @@ class World:
                     lk = lookup(t, TABS[tab])
                     yexp = {"s": {t: ys}, "k": {t: float(k)}, "lk": {t: lk}, "f": {t: max(0.0, k + lk)}}
                     ys = ys + dt * max(0.0, k + lk)
-                if y not in res.get(m, {}):
-                    return ("run_step %d: scenario %s/%s of the session is missing from the result" % (len(log), m, y), yexp, list(res.get(m, {})))
-                bad = same(res[m][y], yexp)
+                if y not in res.get(m2, {}):
+                    return ("run_step %d: scenario %s/%s of the session is missing from the result" % (len(log), m2, y), yexp, list(res.get(m2, {})))
+                bad = same(res[m2][y], yexp)
                 if bad:
-                    return ("run_step %d: scenario %s/%s stepped alongside %s (which got %s)" % (len(log), m, y, sc, log), yexp, bad)
+                    return ("run_step %d: scenario %s/%s stepped alongside %s/%s (which got %s)" % (len(log), m2, y, m, sc, log), yexp, bad)
         elif op == "End":
             b.end_session()
             self.steps = None
